@@ -75,7 +75,7 @@ package unmarshal
 //@ func maybeAddFp
 //@   modifies nothing
 
-//@ func (*parserDoer).onEntries [C02,C03]
+//@ func (*parserDoer).onEntries [C02,C03,C04]
 //@   requires sameLen(timestampsNS, message, value, types) && knownTypes(types)
 //@   requires forall i int :: 0 <= i && i < len(labels) ==> len(labels[i]) == 2
 //@   requires rectSpl(p.tsSpl.spl) && rectTs(p.tsSpl.ts) && p.tsSpl.spl != nil
@@ -93,13 +93,17 @@ package unmarshal
 //@   check row-stream: rowsSent == old(rowsSent) ==> (forall k int :: 0 <= k && k < len(timestampsNS) ==> p.tsSpl.spl.MFingerprint[old(len(p.tsSpl.spl.MTimestampNS)) + k] == fp)
 //@   loop 2:
 //@     modifies elems(tps)
+//@   check series-day-is-utc: rowsSent == old(rowsSent) ==> (forall k int :: old(len(p.tsSpl.ts.MDate)) <= k && k < len(p.tsSpl.ts.MDate) ==> zoneOff(p.tsSpl.ts.MDate[k]) == 0)
 //@   loop 3:
+//@     invariant forall d time.Time :: has(dates, d) ==> zoneOff(d) == 0
 //@     modifies mapof(dates), p.tsSpl.spl.Size
 //@   loop 4:
-//@     invariant rectTs(p.tsSpl.ts)
+//@     invariant rectTs(p.tsSpl.ts) && old(len(p.tsSpl.ts.MDate)) <= len(p.tsSpl.ts.MDate)
+//@     invariant forall k int :: old(len(p.tsSpl.ts.MDate)) <= k && k < len(p.tsSpl.ts.MDate) ==> zoneOff(p.tsSpl.ts.MDate[k]) == 0
 //@     modifies fields(p.tsSpl.ts)
 //@   loop 5:
-//@     invariant rectTs(p.tsSpl.ts)
+//@     invariant rectTs(p.tsSpl.ts) && old(len(p.tsSpl.ts.MDate)) <= len(p.tsSpl.ts.MDate) && zoneOff(d) == 0
+//@     invariant forall k int :: old(len(p.tsSpl.ts.MDate)) <= k && k < len(p.tsSpl.ts.MDate) ==> zoneOff(p.tsSpl.ts.MDate[k]) == 0
 //@     modifies fields(p.tsSpl.ts)
 
 // ---------------------------------------------------------------- Loki JSON push (both stream layouts)
